@@ -1,4 +1,5 @@
 import TorrentVerif.Proofs.Align
+import TorrentVerif.Proofs.CreatorsV1
 /-
   C15 — piece-aligned v1 metafiles: padding entries account exactly for the pieces.
   `Impl.alignedEntries` mirrors the `info["files"]` loop of `TorrentFile.assemble` with
@@ -91,5 +92,60 @@ theorem align_pieces_full (pl : Nat) (hpl : 0 < pl) (files : List Bytes) (hne : 
 theorem align_single (H1 : Bytes → Bytes) (pl : Nat) (hpl : 0 < pl) (f : Bytes) :
     (hasherV1 false pl [f]).map H1 = (chunks pl f).map H1 := by
   rw [hasherV1_eq_chunks pl hpl [f] (by simp)]; simp
+
+end TorrentVerif.Props.C15
+
+/-! ### the whole piece-aligned v1 metafile (`Impl.createV1 … true` of `Model/Creators.lean`) -/
+namespace TorrentVerif.Props.C15
+open TorrentVerif TorrentVerif.Impl TorrentVerif.Toy TorrentVerif.Ex.G7
+
+/-- The v1 metafile `TorrentFile(align=True)` writes for a directory (names non-empty, `/`-free,
+    distinct; any root path, any enumeration order):
+    * read entry by entry as (is padding, length), `info.files` is exactly the padding layout
+      `alignedEntries` over the lengths of the sorted listing — so `align_gap`, `align_starts`,
+      `align_count` above speak about the written list;
+    * its non-padding entries are the sorted listing (`Spec.sortedFiles`), each `{"length",
+      "path"}` with exact length and relative path;
+    * every padding entry is literally `{"attr": "p", "length": n, "path": [".pad", str(n)]}`;
+    * `info.pieces` is the v1 hashing of the piece slices of the aligned stream (every file
+      followed by zero bytes up to the next piece boundary), and there is no `info.length`. -/
+theorem create_v1_aligned_metafile (o : CreateOpts) (H1 : Bytes → Bytes)
+    (enum : List (List (Bytes × Bytes)) → List (List (Bytes × Bytes)))
+    (henum : ∀ l, (enum l).Perm l) (pre : Bytes) (es : List (Bytes × Node))
+    (hwn : Spec.WellNamed (.dir es)) (hpl : 0 < o.pieceLength) (r : BVal) (b : Bytes)
+    (h : createV1 o true H1 enum pre (.dir es) = some (r, b)) :
+    ∃ fl, r.infoGet? K.files = some (.list fl) ∧
+      fl.map (fun e => (Spec.isPadEntry e, Spec.entryLength e))
+        = (alignedEntries o.pieceLength ((Spec.sortedFiles pre (.dir es)).map (·.2.length))).map
+            (fun a => (a.pad, some a.length)) ∧
+      fl.filter (fun e => !Spec.isPadEntry e)
+        = (Spec.sortedFiles pre (.dir es)).map (fun x => .dict [(K.length, .int x.2.length),
+            (K.path, strs (Spec.splitOn Listing.sep (x.1.drop (pre.length + 1))))]) ∧
+      (∀ e ∈ fl, Spec.isPadEntry e = true → ∃ n : Nat, e = .dict [(K.attr, .str [112]), (K.length, .int n),
+            (K.path, .list [.str [46, 112, 97, 100], .str (natDec n)])]) ∧
+      r.infoGet? K.pieces = some (.str ((chunks o.pieceLength
+        (Spec.alignedStream o.pieceLength ((Spec.sortedFiles pre (.dir es)).map (·.2)))).map H1).flatten) ∧
+      r.infoGet? K.pieceLength = some (.int o.pieceLength) ∧ r.infoGet? K.length = none := by
+  obtain ⟨_, _, hk⟩ := createV1_dir o true H1 enum henum pre es hwn hpl r b h
+  refine ⟨_, hk.files, ?_, ?_, ?_, ?_, hk.pieceLength, hk.length⟩
+  · rw [v1Entries_read_true, v1Listed_sizes]
+  · rw [v1Entries_filter, v1Listed_entries]
+  · intro e he hp
+    rcases v1Entries_shape _ _ _ e he with ⟨p, s, rfl⟩ | ⟨n, rfl⟩
+    · rw [isPad_fileEntry] at hp; cases hp
+    · exact ⟨n, rfl⟩
+  · simpa using hk.pieces
+
+/-- met by: the example tree rooted at `r`, piece length 4 (`b` has 9 bytes, `a/y` 2, `a/x` 0,
+    `a.b` exactly 4): the creator succeeds and the pieces are those of the aligned stream -/
+example : ∃ r b, createV1 exOpts true toyH1 id [114] exTree = some (r, b) ∧
+    r.infoGet? K.pieces = some (.str ((chunks 4
+      (Spec.alignedStream 4 ((Spec.sortedFiles [114] exTree).map (·.2)))).map toyH1).flatten) := by
+  have hne := exTree_sorted_ne [114]
+  obtain ⟨r, b, h⟩ := createV1_dir_some exOpts true toyH1 id (fun _ => .refl _) [114] _
+    exTree_wellNamed hne
+  obtain ⟨fl, _, _, _, _, hp, _⟩ := create_v1_aligned_metafile exOpts toyH1 id (fun _ => .refl _)
+    [114] _ exTree_wellNamed (by decide) r b h
+  exact ⟨r, b, h, hp⟩
 
 end TorrentVerif.Props.C15
